@@ -65,6 +65,7 @@ fn main() {
     let (ns, nl) = (scts.len(), lists.len());
     sink.merge(struct_sweep(&run, &[&SCT], &scts, d, &sfx, 96, &extra));
     sink.merge(struct_sweep(&run, &[&SCT_LIST], &lists, d, &sfx, 96, &extra));
+    sink.merge(struct_sweep(&run, &[&SCT_LIST], &cat::sct_lists_many(), run.tier.pick(0, 1), &sfx, 32, &extra));
     // single entries are also lists-of-bytes for the list parser and vice versa (nesting confusion)
     sink.merge(struct_sweep(&run, &[&SCT_LIST], &scts, 0, &sfx, 96, &extra));
     sink.merge(struct_sweep(&run, &[&SCT], &lists, 0, &sfx, 96, &extra));
@@ -125,7 +126,7 @@ fn main() {
     cov.insert("catalogue_lists".into(), json!(nl));
     cov.insert("sweep_cases".into(), json!(nsweeps));
     cov.insert("rule".into(), json!(format!(
-        "struct: {} single SCT entries and {} lists of 0..3 SCTs x every combination of <= {} deviations (3 nested length prefixes each in {{0,1,true-1,true+1,max}}, every cut, 7 suffixes incl. one and two valid SCT entries); all 256 versions, all 65536 algorithm pairs, timestamps over all single/double-bit patterns and every byte x all values; every string of bounded length over positional alphabets; well-formed 45-byte SCT prefix followed by every tail of length <= {}. Oracle: strict RFC 6962 walker + 'a malformed list yields at most the entries before the first bad one, all inside the declared list'. Non-trivial: every case",
+        "struct: {} single SCT entries and {} lists of 0..3 SCTs (plus lists of 255 / 256 / 257 / 1000 / 1285 entries) x every combination of <= {} deviations (3 nested length prefixes each in {{0,1,true-1,true+1,max}}, every cut, 7 suffixes incl. one and two valid SCT entries); all 256 versions, all 65536 algorithm pairs, timestamps over all single/double-bit patterns and every byte x all values; every string of bounded length over positional alphabets; well-formed 45-byte SCT prefix followed by every tail of length <= {}. Oracle: strict RFC 6962 walker + 'a malformed list yields at most the entries before the first bad one, all inside the declared list'. Non-trivial: every case",
         ns, nl, d, tn)));
     let code = run.finish(&sink, cov, vec!["strict walker per DESIGN appendix D; trailing bytes inside an entry are Unspecified".into()]);
     std::process::exit(code);
